@@ -3,7 +3,7 @@
 
 from rzilcompiler.Transformer.Effects.Effect import Effect, EffectType
 from rzilcompiler.Transformer.Pures.Pure import Pure
-from rzilcompiler.Transformer.Pures.BooleanOp import BooleanOp
+from rzilcompiler.Transformer.Pures.BooleanOp import BooleanOp, is_bool_typed
 from rzilcompiler.Transformer.Pures.CompareOp import CompareOp
 from rzilcompiler.Transformer.Pures.Bool import Bool
 
@@ -24,6 +24,7 @@ class Branch(Effect):
             isinstance(self.cond, BooleanOp)
             or isinstance(self.cond, CompareOp)
             or isinstance(self.cond, Bool)
+            or is_bool_typed(self.cond)
         ):
             cond = self.cond.il_read()
         else:
